@@ -19,7 +19,7 @@ NEEDS = ('icontract',)
 RULE = ('A file = 2..25 logical records with unique random content, length 2..3.5 x payload capacity (sizes drawn around '
         'multiples of the capacity; records capped at 6000 bytes except a "large" class with physical record lengths up to 65535 and '
         'records up to 3.5 x 65531 bytes), a maximum physical record length from the minimum legal value to 65535 (biased small, '
-        'with the first-marker special lengths 244 and 65524), the 8 trailer combinations in rotation, TIF off/on in rotation; one '
+        'with the first-marker special lengths 244 and 65524 and lengths that make the first TIF next pointer a multiple of 256), the 8 trailer combinations in rotation, TIF off/on in rotation; one '
         '"record-number-wrap" file per run has > 65536 physical records. Each file is written by File.FileWrite with a fresh '
         'PhysRecTail and read as written, and additionally with the TIF markers rewritten byte-reversed. A case is one '
         '(file, read target, operation history): a whole-record history, a seek-in-permuted-order history with random splits, '
@@ -632,6 +632,9 @@ def gen_file(rng, fi, G):
         klass = 'large'
     elif x < 0.06:
         pr_len, first_full, klass = 244, True, 'first-pr-244'
+    elif x < 0.11:
+        # first TIF next pointer 12 + length with a zero low byte / small high byte: the boundary of byte-order detection
+        pr_len, first_full, klass = rng.choice([256 * rng.randrange(2, 256) - 12, 256 * rng.randrange(2, 8) - 12, 0x10100 - 12 - 256 * rng.randrange(1, 4)]), True, 'first-next-multiple-of-256'
     elif x < 0.30:
         pr_len, klass = lo + rng.randrange(0, 4), 'minimal'
     elif x < 0.55:
